@@ -208,7 +208,8 @@ CHECKS["C11"] = dict(
     rule="enumeration through the public API (note-on, CC7, CC11, CC74, master-volume SysEx, volume-model / modulator-scaling / full-range-brightness setters) of "
          "velocity x CC7 x CC11 for master volume in {0,1,64,127}, all 5 volume models x 8 FM algorithms x 3 instrument TL sets x modulator scaling on/off "
          "(quick: 31x32x32 boundary-biased sub-grid + full single-axis lines; thorough: the full 127x128x128 grid), plus master volume 0..127 and brightness 0..127 "
-         "lines in both brightness modes. Oracle on the 0x40-0x4F register writes seen by the tap: range, carrier monotonicity along every axis, silence at zero, "
+         "lines in both brightness modes, and a 15-step CC74 path (down to 0, up, down, up) on a HELD note. Oracle on the 0x40-0x4F registers as the tap last saw them written "
+         "(a skipped redundant write is not an error): range, carrier monotonicity along every axis, silence at zero, levels follow brightness in both directions and return to the full-brightness values, "
          "modulators untouched / never brighter. Non-trivial = a grid point whose written TL differs from both 127 and the instrument's TL (distinct by construction).",
     assumptions=[
         "carriers per algorithm are taken from the YM2612 manual (slot order S1,S3,S2,S4 in the register map)",
